@@ -1,5 +1,6 @@
 import NoteSeqVerif.Proofs.C04
 import NoteSeqVerif.Proofs.C04_time
+import NoteSeqVerif.Proofs.C04_expand
 import NoteSeqVerif.Props.C04_keys
 import Mathlib.Tactic.Linarith
 import Mathlib.Tactic.Ring
@@ -504,5 +505,97 @@ theorem abc_repeat_errors (R : Rat → Rat) (st : St) (n : Nat) :
     exact doRepeat_no_repeat_error _ b f he (fun x hx _ => ht (by rw [hx]; simp))
   · intro hh he
     simp [finishTune, hh, he]
+
+/-! ## abc_repeats (proved part: what the section structure expands to; full statement below) -/
+
+/-- `expand_section_groups` (notes; exact arithmetic) on ANY sequence whose notes are partitioned by
+its section annotations — increasing section starts below the total time, every note starting
+inside its section and ending no later than the section's end, notes in onset order, group ids in
+range: the expansion succeeds and consists, group by group, of the notes of the group's section
+played `num_times` times, pitches and durations in order. -/
+theorem abc_repeats_expansion (bs : List Block) (T : Rat) (groups : List (Int × Nat)) (base : Tune)
+    (hwf : BlocksWF bs T) (hsorted : (blockNotes bs).Pairwise (fun a b => a.start ≤ b.start))
+    (hne : groups ≠ []) (hids : ∀ g ∈ groups, 0 ≤ g.1 ∧ g.1 < bs.length) :
+    ∃ L, expand id (tuneOfBlocks bs T groups base) = .ok L ∧
+      L.map pd = groups.flatMap (fun g => (List.replicate g.2 (blockPd bs g.1)).flatten) :=
+  expand_blocks bs T groups base hwf hsorted hne hids
+
+/-- a sequence without section groups expands to itself -/
+theorem abc_repeats_no_groups (R : Rat → Rat) (t : Tune) (h : t.groups = []) : expand R t = .ok t.notes := by
+  simp [expand, h]
+
+/-- the "player": an independent reading of the bar tokens.  `played` = what has been played,
+`cur` = the notes since the most recent section start (start of tune, double bar outside a repeat,
+any repeat sign), `open_` = the count the open forward repeat asks for -/
+structure Player where
+  played : List (Int × Rat) := []
+  cur : List (Int × Rat) := []
+  open_ : Option Nat := none
+
+/-- one item; `vals` are the (pitch, duration) of the notes still to come, in order -/
+def playItem (p : Player) (vals : List (Int × Rat)) : Item → Option (Player × List (Int × Rat))
+  | .tok (.note _ _ _ _) =>
+    match vals with
+    | v :: r => some ({ p with cur := p.cur ++ [v] }, r)
+    | [] => none
+  | .tok t =>
+    match barCounts t with
+    | some (b, f) =>
+      if p.open_.isSome ∧ b ≠ p.open_ then none
+      else some ({ played := p.played ++ (List.replicate (b.getD 1) p.cur).flatten, cur := [], open_ := f }, vals)
+    | none =>
+      match t with
+      | .bar _ len _ =>
+        if 2 ≤ len ∧ p.open_.isNone then some ({ p with played := p.played ++ p.cur, cur := [] }, vals)
+        else some (p, vals)
+      | _ => some (p, vals)
+  | _ => some (p, vals)
+
+def playItems : Player → List (Int × Rat) → List Item → Option Player
+  | p, _, [] => some p
+  | p, vals, i :: r =>
+    match playItem p vals i with
+    | some (p', vals') => playItems p' vals' r
+    | none => none
+
+/-- the played order of a tune: at `:|`×n go back to the most recent section start n−1 times -/
+def unfold (items : List Item) (vals : List (Int × Rat)) : Option (List (Int × Rat)) :=
+  match playItems {} vals items with
+  | some p => if p.open_.isNone then some (p.played ++ p.cur) else none
+  | none => none
+
+/-- every repeated section contains a note: no repeat sign directly after a section start -/
+def NonDegenerate (items : List Item) : Prop :=
+  ∀ pre t b f post, items = pre ++ .tok t :: post → barCounts t = some (some b, f) →
+    ∃ p vals, playItems {} vals pre = some p ∧ p.cur ≠ []
+
+/-- FULL STATEMENT of the repeat clause (not proved as one theorem; see `level_note`): for every tune
+without broken-rhythm tokens that the parser accepts, whose notes all have positive duration and
+whose repeats are non-degenerate, the expansion of the parsed section structure is the played
+order.  Proved parts: `abc_repeats_expansion` (what any section structure expands to),
+`abc_repeat_errors` (which repeat layouts are rejected); the remaining link — that the sections and
+groups `_parse_music_code` builds partition the notes as the player's sections do — is checked on
+every generated tune by the correspondence run and the oracle (player vs `expand_section_groups`
+of the real parser's output). -/
+def abc_repeats_statement : Prop :=
+  ∀ (lines : List Line) (tune : Tune), parseTune id lines = .ok tune →
+    (∀ i ∈ flatten lines, isBrokenItem i = false) → (∀ n ∈ tune.notes, n.start < n.end_) →
+    NonDegenerate (flatten lines) →
+    ∃ L, expand id tune = .ok L ∧ unfold (flatten lines) (tune.notes.map pd) = some (L.map pd)
+
+set_option maxRecDepth 100000 in
+/-- non-vacuity of the statement and of `abc_repeats_expansion`: `C D |:: E F ::| G` parses to three
+sections and groups 0×1, 1×3, 2×1, expands to C D E F E F E F G, which is the played order -/
+example :
+    (match parseTune id [.field (.refnum 1), .music [.note .none 'C' [] ⟨none, 0, none⟩, .note .none 'D' [] ⟨none, 0, none⟩,
+        .bar 0 1 2, .note .none 'E' [] ⟨none, 0, none⟩, .note .none 'F' [] ⟨none, 0, none⟩, .bar 2 1 0,
+        .note .none 'G' [] ⟨none, 0, none⟩]] with
+      | .ok t => (t.groups, (expand id t).map (·.map (·.pitch)),
+                  (unfold (flatten [Line.music [.note .none 'C' [] ⟨none, 0, none⟩, .note .none 'D' [] ⟨none, 0, none⟩,
+                    .bar 0 1 2, .note .none 'E' [] ⟨none, 0, none⟩, .note .none 'F' [] ⟨none, 0, none⟩, .bar 2 1 0,
+                    .note .none 'G' [] ⟨none, 0, none⟩]]) (t.notes.map pd)).map (·.map (·.1)))
+      | .error _ => ([], .ok [], none)) =
+    ([(0, 1), (1, 3), (2, 1)], .ok [60, 62, 64, 65, 64, 65, 64, 65, 67], some [60, 62, 64, 65, 64, 65, 64, 65, 67]) := by
+  decide +kernel
 
 end NSV.C04
